@@ -705,15 +705,18 @@ PyObject* py_cwatershed(PyObject* self, PyObject* args) {
         PyErr_SetString(PyExc_RuntimeError, "mahotas._cwatershed: markers should be an int32 array.");
         return NULL;
     }
-    PyArrayObject* res_a = (PyArrayObject*)PyArray_SimpleNew(
+    // Pixels that no marker reaches are never written by cwatershed(), so the
+    // outputs must start out as zero (resp. false):
+    PyArrayObject* res_a = (PyArrayObject*)PyArray_ZEROS(
                                                     PyArray_NDIM(array),
                                                     PyArray_DIMS(array),
-                                                    NPY_INT64);
+                                                    NPY_INT64,
+                                                    0);
     if (!res_a) return NULL;
     PyArrayObject* lines =  0;
     numpy::aligned_array<bool>* lines_a = 0;
     if (return_lines) {
-        lines = (PyArrayObject*)PyArray_SimpleNew(PyArray_NDIM(array), PyArray_DIMS(array), NPY_BOOL);
+        lines = (PyArrayObject*)PyArray_ZEROS(PyArray_NDIM(array), PyArray_DIMS(array), NPY_BOOL, 0);
         if (!lines) return NULL;
         lines_a = new numpy::aligned_array<bool>(lines);
     }
